@@ -250,6 +250,10 @@ package main
 //@   loop 0 invariant forall k int :: 0 <= k && k < len(foundEpochs) ==> has(foundTransactions, foundEpochs[k])
 //@   loop 1 entry forall a, b int :: 0 <= a && a < b && b < len(foundEpochs) ==> foundEpochs[a] >= foundEpochs[b]
 //@   loop 1 entry forall k int :: 0 <= k && k < len(foundEpochs) ==> has(foundTransactions, foundEpochs[k])
+//@   # ... and the blocks are laid end to end: the write position starts at 0 and moves on by exactly the size of the block written
+//@   loop 1 entry numBefore == 0
+//@   # (stated up to wrap-around of the machine int, which needs more than 2^63 entries)
+//@   loop 1 step athead(numBefore) >= 0 && athead(numBefore) + len(sigs) <= 9223372036854775807 ==> numBefore == athead(numBefore) + len(sigs)
 
 //@ func (*MultiEpoch) handleGetBlockTime
 //@   requires ctx != nil && conn != nil && conn.ctx != nil && req != nil
